@@ -378,3 +378,30 @@ Definition md5_feed (r : hres md5_ctx) (d : list Z) : hres md5_ctx := do c <- r;
 Definition md5_run (chunks : list (list Z)) : hres (list Z) :=
   do c <- fold_left md5_feed chunks (HOk md5_init); md5_final c.
 Definition md5_oneshot (data : list Z) : hres (list Z) := md5_run [data].
+
+(* ========================================================================================== *)
+(* vocabulary of the theorem statements (Properties_C17.v)                                     *)
+(* "c is a context obtained from Init by feeding msg in some sequence of update calls" *)
+Definition sha1_reached (c : sha1_ctx) (msg : list Z) : Prop :=
+  exists chunks, concat chunks = msg /\ fold_left sha1_feed chunks (HOk sha1_init) = HOk c.
+Definition sha256_reached (c : tom_ctx) (msg : list Z) : Prop :=
+  exists chunks, concat chunks = msg /\ fold_left sha256_feed chunks (HOk sha256_init) = HOk c.
+Definition sha512_reached (c : tom_ctx) (msg : list Z) : Prop :=
+  exists chunks, concat chunks = msg /\ fold_left sha512_feed chunks (HOk sha512_init) = HOk c.
+Definition md5_reached (c : md5_ctx) (msg : list Z) : Prop :=
+  exists chunks, concat chunks = msg /\ fold_left md5_feed chunks (HOk md5_init) = HOk c.
+
+(* two contexts agree on everything the code will read again: chaining value, bit count, and the
+   pending bytes of the partial block (bytes of the buffer beyond them are stale) *)
+Definition sha1_pending (c : sha1_ctx) : list Z :=
+  firstn (Z.to_nat (Z.land (s1_count0 c / 2 ^ sha1_idx_shift) sha1_idx_mask)) (s1_buffer c).
+Definition sha1_equiv (c1 c2 : sha1_ctx) : Prop :=
+  s1_state c1 = s1_state c2 /\ s1_count0 c1 = s1_count0 c2 /\ s1_count1 c1 = s1_count1 c2 /\
+  sha1_pending c1 = sha1_pending c2.
+Definition tom_equiv (c1 c2 : tom_ctx) : Prop :=
+  t_state c1 = t_state c2 /\ t_length c1 = t_length c2 /\ t_curlen c1 = t_curlen c2 /\
+  firstn (Z.to_nat (t_curlen c1)) (t_buf c1) = firstn (Z.to_nat (t_curlen c2)) (t_buf c2).
+Definition md5_pending (c : md5_ctx) : list Z :=
+  firstn (Z.to_nat (Z.land (m_bits0 c / 2 ^ md5_idx_shift) md5_idx_mask)) (m_in c).
+Definition md5_equiv (c1 c2 : md5_ctx) : Prop :=
+  m_buf c1 = m_buf c2 /\ m_bits0 c1 = m_bits0 c2 /\ m_bits1 c1 = m_bits1 c2 /\ md5_pending c1 = md5_pending c2.
